@@ -54,6 +54,11 @@ func defsUsed(all map[string]*FunDef, terms []*Term) []*FunDef {
 
 // ScriptD renders a script with function definitions.
 func ScriptD(asserts []*Term, getValues []*Term, defs []*FunDef) string {
+	return ScriptDA(asserts, getValues, defs, false)
+}
+
+// ScriptDA: abstract=true maps String field sorts of datatypes to the uninterpreted sort StrU (see abstr.go).
+func ScriptDA(asserts []*Term, getValues []*Term, defs []*FunDef, abstract bool) string {
 	p := NewPrinter()
 	seen := map[*Term]bool{}
 	for _, a := range asserts {
@@ -85,7 +90,11 @@ func ScriptD(asserts []*Term, getValues []*Term, defs []*FunDef) string {
 		dt := p.dts[p.dtOrder[i]]
 		sb.WriteString("(declare-datatypes ((" + quoteSym(dt.Name) + " 0)) (((" + quoteSym(dt.Ctor))
 		for j, f := range dt.Fields {
-			sb.WriteString(" (" + quoteSym(f) + " " + dt.Sorts[j] + ")")
+			fs := dt.Sorts[j]
+			if abstract {
+				fs = mapSortU(fs)
+			}
+			sb.WriteString(" (" + quoteSym(f) + " " + fs + ")")
 		}
 		sb.WriteString("))))\n")
 	}
